@@ -13,19 +13,32 @@ import (
 )
 
 type pcEntry struct {
-	fn  *ssa.Function
-	pos token.Pos
+	fn    *ssa.Function
+	pos   token.Pos
+	synth *SynthFrame
+}
+
+// SynthFrame is a frame below the harness entry, as measured on the native
+// runner (sym.(*V).Run, main.main, runtime.main, runtime.goexit).
+type SynthFrame struct {
+	Func string
+	File string
+	Line int
 }
 
 // RFunc stands in for *runtime.Func.
 type RFunc struct {
-	fn *ssa.Function
+	fn   *ssa.Function
+	name string
 }
 
 const pcBase = 0x400000
 
 func (in *Interp) pcFor(fn *ssa.Function, pos token.Pos) uint64 {
-	k := pcEntry{fn, pos}
+	return in.pcForEntry(pcEntry{fn: fn, pos: pos})
+}
+
+func (in *Interp) pcForEntry(k pcEntry) uint64 {
 	if i, ok := in.pcIndex[k]; ok {
 		return pcBase + uint64(i)*16 + 8
 	}
@@ -51,17 +64,20 @@ func (in *Interp) pcLookup(pc uint64) (pcEntry, bool) {
 func (in *Interp) logicalFrames(fr *frame) []pcEntry {
 	var r []pcEntry
 	// frame 0: the runtime function
-	r = append(r, pcEntry{fr.fn, token.NoPos})
+	r = append(r, pcEntry{fn: fr.fn})
 	for f := fr.caller; f != nil; f = f.caller {
 		pos := token.NoPos
 		if f.cur != nil {
 			pos = f.cur.Pos()
 		}
 		if f.fn.Synthetic == "" || strings.HasPrefix(f.fn.Synthetic, "instance of") {
-			r = append(r, pcEntry{f.fn, pos})
+			r = append(r, pcEntry{fn: f.fn, pos: pos})
 		}
 	}
-	// the goroutine's bottom frames in a real process
+	// the goroutine's bottom frames in a real process (measured natively)
+	for i := range in.env.bottomFrames {
+		r = append(r, pcEntry{synth: &in.env.bottomFrames[i]})
+	}
 	return r
 }
 
@@ -125,7 +141,7 @@ func (in *Interp) registerStackIntrinsics() {
 		skip := int(in.concInt(skipT, true))
 		n := 0
 		for i := skip; i < len(frames) && i >= 0 && n < len(pcs.A); i++ {
-			in.store(&pcs.A[n], in.tf.Const(64, in.pcFor(frames[i].fn, frames[i].pos)+1))
+			in.store(&pcs.A[n], in.tf.Const(64, in.pcForEntry(frames[i])+1))
 			n++
 		}
 		return in.tf.Const(64, uint64(n))
@@ -141,8 +157,11 @@ func (in *Interp) registerStackIntrinsics() {
 			return Tuple{in.tf.Const(64, 0), mkStr(""), in.tf.Const(64, 0), tFalse}
 		}
 		e := frames[skip]
+		if e.synth != nil {
+			return Tuple{in.tf.Const(64, in.pcForEntry(e)), mkStr(e.synth.File), in.tf.Const(64, uint64(e.synth.Line)), tTrue}
+		}
 		p := in.prog.Fset.Position(e.pos)
-		return Tuple{in.tf.Const(64, in.pcFor(e.fn, e.pos)), mkStr(p.Filename), in.tf.Const(64, uint64(p.Line)), tTrue}
+		return Tuple{in.tf.Const(64, in.pcForEntry(e)), mkStr(p.Filename), in.tf.Const(64, uint64(p.Line)), tTrue}
 	}
 	r["runtime.FuncForPC"] = func(in *Interp, fr *frame, args []Value) Value {
 		pc := uint64(in.concInt(args[0].(*Term), false))
@@ -150,11 +169,17 @@ func (in *Interp) registerStackIntrinsics() {
 		if !ok {
 			return (*Cell)(nil)
 		}
-		if c, ok := in.rfuncs[e.fn]; ok {
+		name := ""
+		if e.synth != nil {
+			name = e.synth.Func
+		} else {
+			name = runtimeFuncName(e.fn)
+		}
+		if c, ok := in.rfuncs[name]; ok {
 			return c
 		}
-		c := &Cell{V: RFunc{fn: e.fn}, Epoch: 0}
-		in.rfuncs[e.fn] = c
+		c := &Cell{V: RFunc{fn: e.fn, name: name}, Epoch: 0}
+		in.rfuncs[name] = c
 		return c
 	}
 	r["(*runtime.Func).Name"] = func(in *Interp, fr *frame, args []Value) Value {
@@ -162,13 +187,16 @@ func (in *Interp) registerStackIntrinsics() {
 		if c == nil {
 			return mkStr("")
 		}
-		return mkStr(runtimeFuncName(c.V.(RFunc).fn))
+		return mkStr(c.V.(RFunc).name)
 	}
 	r["(*runtime.Func).FileLine"] = func(in *Interp, fr *frame, args []Value) Value {
 		pc := uint64(in.concInt(args[1].(*Term), false))
 		e, ok := in.pcLookup(pc)
 		if !ok {
 			return Tuple{mkStr("?"), in.tf.Const(64, 0)}
+		}
+		if e.synth != nil {
+			return Tuple{mkStr(e.synth.File), in.tf.Const(64, uint64(e.synth.Line))}
 		}
 		pos := e.pos
 		if pos == token.NoPos {
@@ -182,7 +210,7 @@ func (in *Interp) registerStackIntrinsics() {
 		if c == nil {
 			return in.tf.Const(64, 0)
 		}
-		return in.tf.Const(64, in.pcFor(c.V.(RFunc).fn, token.NoPos))
+		return in.tf.Const(64, pcBase)
 	}
 	r["runtime.CallersFrames"] = func(in *Interp, fr *frame, args []Value) Value {
 		panic(in.abort("unsupported", "runtime.CallersFrames"))
